@@ -11,7 +11,7 @@ BOUNDED = [
      'bound': 'the four rate-limited commands (snapshot, restore, upload-objects, download-objects) on a recording local backend under a virtual '
               'clock (exact for concurrency 1; for concurrency 2, 3 elapsed time is over-estimated, i.e. a weaker check): L = 4096 (thorough: also '
               '40000) B/s, ~12 virtual seconds of payload per command in objects of 3/4 L, plain (thorough: also encrypted); every window of '
-              'transfers at the backend <= L*T + L*PAUSE_LIMIT + N*L/4, data intact'},
+              'transfers at the backend <= L*T + L*PAUSE_LIMIT + N*L/4, data intact; 400 (thorough: 3000) random sequences of read / write / seek / tell / truncate(n incl. 0) / truncate() on a wrapped BytesIO against a plain one'},
     {'name': 'C20.sim.window', 'script': 'bounded/c20_sim.py', 'timeout': 900,
      'bound': 'real limiter under a virtual clock and a deterministic seeded scheduler (one thread runs at a time, FIFO locks, optional '
               'preemption at clock readings): 10 (thorough: 200) schedules of 1..4 streams, reads/writes, request sizes <= L/4 fixed or '
